@@ -102,8 +102,8 @@ def _standin(x):
 
 def mk_loss(cls, **kw):
     """Construct a jinns loss object the way users do — outside any trace, with concrete data — and then put the symbolic
-    weights / initial condition / normalisation data / derivative keys into the user-facing fields with eqx.tree_at (the
-    way users re-weight or re-configure an existing loss).  The values the terms use must be those the object carries:
+    weights / initial condition / normalisation data / derivative keys into the user-facing fields (as users re-weight or
+    re-configure an existing loss; __post_init__ is not re-run).  The values the terms use must be those the object carries:
     copies made at construction (which eqx.tree_at does not refresh) are not the object's weights.  Construction runs
     under jax.ensure_compile_time_eval so that nothing of it is staged into the traced function."""
     conc = dict(kw)
@@ -116,6 +116,10 @@ def mk_loss(cls, **kw):
         conc["params"] = jax.tree_util.tree_map(_standin, conc["params"])
     with jax.ensure_compile_time_eval():
         loss = cls(**conc)
+    # a shallow copy whose user-facing fields are replaced, dictionaries kept exactly as written (eqx.tree_at would rebuild
+    # every dictionary of the object in sorted key order and hide whatever depends on the order the caller wrote)
+    import copy
+    loss = copy.copy(loss)
     for k, v in later.items():
-        loss = eqx.tree_at(lambda l, k=k: getattr(l, k), loss, v, is_leaf=lambda x: x is None)
+        object.__setattr__(loss, k, v)
     return loss
